@@ -21,11 +21,14 @@ import (
 	"fmt"
 	"os"
 	"path/filepath"
+	"runtime"
 	"runtime/debug"
 	"sort"
 	"strconv"
 	"strings"
+	"syscall"
 	"time"
+	"unsafe"
 
 	"github.com/go-gts/gts"
 	"github.com/go-gts/gts/seqio"
@@ -1456,6 +1459,172 @@ func (c *c07Ctx) nesting(quick bool) {
 
 // ---------------------------------------------------------------------------
 
+// ---------------------------------------------------------------------------
+// TIME: the scan of the leak-then-rewind shapes grows linearly with the input (F34).
+//
+// Each shape is generated in two sizes, n and 4n (input sizes in the ratio 1:4).  With t(n) the
+// minimum of three scans of the small input, one of three scans of the large input has to finish
+// within 8·t(n) + 50 ms (CPU time of the scanning thread, see threadCPU; a comparison that fails
+// by less than a factor of three is repeated, up to three rounds).  A scan that goes back to saved positions left by an earlier parser and
+// reads the lines behind them again, once per position, takes 16 times as long or more (66de3a0:
+// 1.6 s against 42 s for 7 KB and 28 KB) and is reported with both times.  The comparison is
+// skipped (and counted as skipped) when t(n) is below 1 ms: nothing to compare.
+
+type timeShape struct {
+	name string
+	n    int // size parameter of the small input; the large one is generated with 4n
+	gen  func(n int) []byte
+}
+
+var c07TimeShapes = []timeShape{
+	// n leaked frames, n skipped lines, a SOURCE field without ORGANISM (the shape of F34)
+	{"join-leak+skipped+SOURCE-without-ORGANISM", 1000, func(n int) []byte {
+		return []byte(leakHead("join(", n, n) + "SOURCE      x\n//\n")
+	}},
+	{"order-leak+skipped+SOURCE-without-ORGANISM", 1000, func(n int) []byte {
+		return []byte(leakHead("order(", n, n) + "SOURCE      x\n//\n")
+	}},
+	// ... n multi-line DEFINITION fields without period (each joined in place and retried)
+	{"join-leak+DEFINITION-without-period", 250, func(n int) []byte {
+		return []byte(leakHead("join(", n, 0) + strings.Repeat("DEFINITION  a\n            b\n            c\n", n) + "SOURCE      x\n//\n")
+	}},
+	// ... n REFERENCE fields with an unknown sub-field
+	{"join-leak+REFERENCE-unknown-subfield", 250, func(n int) []byte {
+		return []byte(leakHead("join(", n, 0) + strings.Repeat("REFERENCE   1  (bases 1 to 4)\n  AUTHORS   x\n  BOGUS     y\n", n) + "SOURCE      x\n//\n")
+	}},
+	// ... n DBLINK fields without colon
+	{"join-leak+DBLINK-without-colon", 1000, func(n int) []byte {
+		return []byte(leakHead("join(", n, 0) + strings.Repeat("DBLINK      abc\n", n) + "SOURCE      x\n//\n")
+	}},
+	// n feature tables, each of which leaks one frame per nesting level, no SOURCE at all
+	{"repeated-leaking-tables", 250, func(n int) []byte {
+		return []byte(leakLocus + strings.Repeat("FEATURES\na 1\na join(join(join(1^3\nx\n", n) + "//\n")
+	}},
+}
+
+// threadCPU: the CPU time the calling OS thread has used so far
+// (clock_gettime(CLOCK_THREAD_CPUTIME_ID), nanosecond resolution; getrusage is tick-sampled and
+// reads 0 for a scan of a few milliseconds).  The scans of the time oracle are timed with it, on a
+// goroutine locked to its thread: unlike wall time it does not grow when the machine is busy with
+// other work or when the garbage collector's background workers run, and a scan that re-reads its
+// input burns CPU time like any other.
+func threadCPU() (time.Duration, bool) {
+	var ts syscall.Timespec
+	const clockThreadCPUTimeID = 3
+	if _, _, errno := syscall.Syscall(syscall.SYS_CLOCK_GETTIME, clockThreadCPUTimeID, uintptr(unsafe.Pointer(&ts)), 0); errno != 0 {
+		return 0, false
+	}
+	return time.Duration(ts.Nano()), true
+}
+
+// c07ScanTime: the shortest (CPU time of the scanning thread; wall time where that is not
+// available) of up to `runs` scans of data; a scan that is still running after `wallLimit` is
+// abandoned (its goroutine runs to its end in the background) and does not count.  With
+// stopWithin > 0 the first scan that finishes within it ends the measurement.
+func c07ScanTime(data []byte, runs int, wallLimit, stopWithin time.Duration) (best time.Duration, finished bool, verdict string) {
+	type res struct {
+		v string
+		d time.Duration
+	}
+	for i := 0; i < runs; i++ {
+		done := make(chan res, 1)
+		go func() {
+			runtime.LockOSThread()
+			defer runtime.UnlockOSThread()
+			w0 := time.Now()
+			c0, okc := threadCPU()
+			v := "OK"
+			func() {
+				defer func() {
+					if rec := recover(); rec != nil {
+						v = "PANIC"
+					}
+				}()
+				sc := seqio.NewAutoScanner(bytes.NewReader(data))
+				for sc.Scan() {
+				}
+				if sc.Err() != nil {
+					v = "ERR"
+				}
+			}()
+			d := time.Since(w0)
+			if c1, ok := threadCPU(); ok && okc {
+				d = c1 - c0
+			}
+			done <- res{v, d}
+		}()
+		select {
+		case x := <-done:
+			verdict = x.v
+			if !finished || x.d < best {
+				best = x.d
+			}
+			finished = true
+			if stopWithin > 0 && x.d <= stopWithin {
+				return
+			}
+		case <-time.After(wallLimit):
+			return
+		}
+	}
+	return
+}
+
+func (c *c07Ctx) timeOracle() {
+	r := c.r
+	for _, sh := range c07TimeShapes {
+		small, big := sh.gen(sh.n), sh.gen(4*sh.n)
+		key := "time|" + sh.name
+		oracle := "scan time grows linearly with the input (" + sh.name + ")"
+		// a comparison that fails is repeated (both sizes) up to three times: a scan that really
+		// re-reads its input fails every time, a measurement disturbed by other load does not
+		var got, want, state string
+		for round := 0; round < 3; round++ {
+			crumb("scan.auto " + encBytes(small))
+			t1, ok, v1 := c07ScanTime(small, 3, 20*time.Second, 0)
+			if !ok {
+				state, got, want = "HANG", fmt.Sprintf("the scan of %d bytes did not finish within 20 s", len(small)), "a scan that ends"
+				break
+			}
+			if t1 < time.Millisecond {
+				state = "skipped (below 1 ms)"
+				r.notes = append(r.notes, fmt.Sprintf("time oracle %s: %d bytes in %s: below 1 ms, not compared", sh.name, len(small), t1))
+				break
+			}
+			limit := 8*t1 + 50*time.Millisecond
+			wall := 2*limit + 2*time.Second
+			crumb("scan.auto " + encBytes(big))
+			t4, ok4, v4 := c07ScanTime(big, 3, wall, limit)
+			if ok4 && t4 <= limit {
+				state = "linear"
+				r.notes = append(r.notes, fmt.Sprintf("time oracle %s: %d bytes in %s, %d bytes in %s (limit %s, round %d)", sh.name, len(small), t1, len(big), t4, limit, round+1))
+				break
+			}
+			state = "superlinear"
+			got = fmt.Sprintf("%d bytes: %s (%s); %d bytes: ", len(small), t1, v1, len(big))
+			if ok4 {
+				got += fmt.Sprintf("%s (%s)", t4, v4)
+			} else {
+				got += fmt.Sprintf("not finished after %s", wall)
+			}
+			want = fmt.Sprintf("at most 8 x %s + 50 ms = %s for four times the input (CPU time of the scanning thread, best of 3, in each of 3 rounds)", t1, limit)
+			if !ok4 || t4 > 3*limit {
+				break // far off: no need to ask again
+			}
+		}
+		r.count("time/" + sh.name + "/" + state)
+		if state == "skipped (below 1 ms)" {
+			continue
+		}
+		r.eval(key, true)
+		if state == "HANG" {
+			r.fail(Failure{Oracle: oracle, Op: "scan.auto " + encBytes(small), Got: got, Want: want})
+		} else if state == "superlinear" {
+			r.fail(Failure{Oracle: oracle, Op: "scan.auto " + encBytes(big), Got: got, Want: want})
+		}
+	}
+}
+
 func propC07(r *Run) {
 	quick := r.tier != "thorough"
 	c := &c07Ctx{r: r, seen: map[string]struct{}{}}
@@ -1485,6 +1654,13 @@ func propC07(r *Run) {
 	}
 
 	c.scanCase("recorded-shape/K7C fasta.fasta", []byte(">d\r\r\nACGT\n"), false)
+	// leaked location-parser frames followed by a field that fails late (F34): correspondence
+	// with the record-scanner model (gb.read, gb.state), and the same texts through the oracle
+	leakCases(r)
+	for _, t := range leakTexts() {
+		c.scanCase("leak-then-rewind", []byte(t), false)
+	}
+	c.timeOracle()
 	for _, cf := range corpus {
 		c.mutateFile(cf, quick)
 	}
